@@ -438,7 +438,7 @@ func Roll
   ensures [C04 C15] dicePoints == 0 ==> result == 0
   ensures [C15] dicePoints > 0 && mod == -1 ==> result == 1
   ensures [C15] dicePoints > 0 && mod == 1 ==> result == dicePoints
-  ensures [C04 C05] dicePoints > 0 && mod != 1 && mod != -1 ==> 1 <= result && result <= dicePoints
+  ensures [C04 C05 C15] dicePoints > 0 && mod != 1 && mod != -1 ==> 1 <= result && result <= dicePoints
 
 func lemmaMulBetween
   props C04 C15
@@ -1668,7 +1668,7 @@ func (*Context).Run
   ensures ctx.Error == nil ==> len(ctx.stack) == 1000 && 0 <= ctx.top && ctx.top <= 1000 && (ctx.top > 0 ==> wfValue(&ctx.stack[ctx.top-1]))
 
 func (*VMValue).FuncInvokeRaw
-  props C07 C06 C01 C15 C16
+  props C07 C06 C05 C01 C15 C16
   requires ctx != nil && v.TypeId == VMTypeFunction && 0 <= ctx.NumOpCount && ctx.NumOpCount <= math.MaxInt64 - 100
   requires ctx.Attrs != nil
   ghost at precall 1 vm.evaluate: ghostAssume(0 <= vm.codeIndex && vm.codeIndex <= len(vm.code) && forall(0, vm.codeIndex, func(k int) bool { return wfInstr(&vm.code[k], k, vm.codeIndex) }) && forall(0, vm.codeIndex, func(k int) bool { return implies(vm.code[k].T == typeDetailMark, 0 <= vm.code[k].Value.(BufferSpan).Begin && vm.code[k].Value.(BufferSpan).Begin <= vm.code[k].Value.(BufferSpan).End && vm.code[k].Value.(BufferSpan).End <= IntType(len(vm.parser.data))) }), "the cached code of a function body was compiled by this package's parser from cd.Expr (well-formed, detail spans rebased into the body text: C08)")
@@ -1684,7 +1684,7 @@ func (*Context).makeDetailStr
   noverify
 
 func (*VMValue).ComputedExecute
-  props C07 C06 C01 C15 C16
+  props C07 C06 C05 C01 C15 C16
   requires ctx != nil && v.TypeId == VMTypeComputedValue && 0 <= ctx.NumOpCount && ctx.NumOpCount <= math.MaxInt64 - 100
   ghost at precall 1 vm.evaluate: ghostAssume(0 <= vm.codeIndex && vm.codeIndex <= len(vm.code) && forall(0, vm.codeIndex, func(k int) bool { return wfInstr(&vm.code[k], k, vm.codeIndex) }) && forall(0, vm.codeIndex, func(k int) bool { return implies(vm.code[k].T == typeDetailMark, 0 <= vm.code[k].Value.(BufferSpan).Begin && vm.code[k].Value.(BufferSpan).Begin <= vm.code[k].Value.(BufferSpan).End && vm.code[k].Value.(BufferSpan).End <= IntType(len(vm.parser.data))) }), "the cached code of a computed value was compiled by this package's parser from cd.Expr (well-formed, detail spans rebased into the expression text: C08)")
   ghost at precall 1 vm.evaluate: ghostAssert(specInherits(vm, ctx))
